@@ -60,6 +60,22 @@ def mvn_lp(v, mu, cov):
     return -0.5 * d * LOG2PI - np.sum(np.log(np.diag(L))) - 0.5 * np.sum(r * r, axis=-1)
 
 
+def norm_lp_pieces(v, mu, sd):
+    """log N(v; mu, sd) split into the pieces a float32 implementation adds up
+    (constant - log sd, quadratic form): needed for cancellation-aware error scales."""
+    v, mu, sd = np.broadcast_arrays(A64(v), A64(mu), A64(sd))
+    return np.stack([-0.5 * LOG2PI - np.log(sd), -0.5 * ((v - mu) / sd) ** 2], axis=-1)
+
+
+def mvn_lp_pieces(v, mu, cov):
+    cov = A64(cov)
+    d = cov.shape[0]
+    L = np.linalg.cholesky(cov)
+    r = np.atleast_2d(v - mu) @ np.linalg.inv(L).T
+    const = np.full((r.shape[0], 1), -0.5 * d * LOG2PI - np.sum(np.log(np.diag(L))))
+    return np.concatenate([const, -0.5 * r * r], axis=-1)
+
+
 # ---------------------------------------------------------------------------
 # targets
 # ---------------------------------------------------------------------------
@@ -241,7 +257,8 @@ def fam_eval(fam, theta, noise):
     """Re-execute the family at ``theta`` with the noise held fixed:
     reparameterised sites re-use their standard-normal ``eps``; score-function
     sites keep their value ``zfix``.  Returns
-      Z (N, d), lq_terms (N, n_q_sites)  [log q per site],  S (N,)  [sum of log q over score-function sites]."""
+      Z (N, d), lq_terms (N, n_q_sites)  [log q per site],  S (N, n_pieces)  [pieces whose sum is the
+      log q of the score-function sites; kept apart for cancellation-aware error scales]."""
     th = A64(theta)
     eps, zfix = noise
     k = fam["kind"]
@@ -257,15 +274,17 @@ def fam_eval(fam, theta, noise):
         if k == "mf":
             sd = np.exp(th[d:])
             lq = np.sum(norm_lp(Z, mu, sd), axis=-1)
+            pieces = norm_lp_pieces(Z, mu, sd).reshape(N, -1)
         else:
             lq = mvn_lp(Z, mu, Sig)
-        S = lq if fam["est"] == "reinforce" else np.zeros(N)
+            pieces = mvn_lp_pieces(Z, mu, Sig)
+        S = pieces if fam["est"] == "reinforce" else np.zeros((N, 1))
         return Z, lq[:, None], S
     if k == "hw_scalar":
         sd = math.exp(th[1])
         z = th[0] + sd * eps[:, 0] if fam["est"] == "reparam" else zfix[:, 0]
         lq = norm_lp(z, th[0], sd)
-        S = lq if fam["est"] == "reinforce" else np.zeros(N)
+        S = norm_lp_pieces(z, th[0], sd) if fam["est"] == "reinforce" else np.zeros((N, 1))
         return z[:, None], lq[:, None], S
     if k == "hw_chain":
         sd1, sd2 = math.exp(th[1]), math.exp(th[4])
@@ -274,12 +293,12 @@ def fam_eval(fam, theta, noise):
         mean2 = th[2] + th[3] * z1
         z2 = mean2 + sd2 * eps[:, 1] if fam["est2"] == "reparam" else zfix[:, 1]
         lq2 = norm_lp(z2, mean2, sd2)
-        S = np.zeros(N)
+        S = [np.zeros((N, 1))]
         if fam["est1"] == "reinforce":
-            S = S + lq1
+            S.append(norm_lp_pieces(z1, th[0], sd1))
         if fam["est2"] == "reinforce":
-            S = S + lq2
-        return np.stack([z1, z2], -1), np.stack([lq1, lq2], -1), S
+            S.append(norm_lp_pieces(z2, mean2, sd2))
+        return np.stack([z1, z2], -1), np.stack([lq1, lq2], -1), np.concatenate(S, axis=-1)
     raise ValueError(k)
 
 
@@ -326,7 +345,8 @@ def noise_from_z(fam, theta0, Z):
 # per-draw estimators (program route)
 # ---------------------------------------------------------------------------
 def draw_terms(tgt, fam, theta, noise):
-    """T (N, n_terms) with F = T.sum(-1) = log p(y, z) - log q(z);  S (N,);  Z (N, d)."""
+    """T (N, n_terms) with F = T.sum(-1) = log p(y, z) - log q(z);  S (N, n_pieces), S.sum(-1) = log q of
+    the score-function sites;  Z (N, d)."""
     Z, lq, S = fam_eval(fam, theta, noise)
     T = np.concatenate([model_terms(tgt, Z), -lq], axis=-1)
     return T, S, Z
@@ -340,7 +360,7 @@ def per_draw(tgt, fam, theta0, noise, h=2e-3, want_grad=True):
               (pathwise derivative through reparameterised sites, score-function
               term for the others — the ADEV composition rule)
     Also returns condition scales for tolerances:
-      vscale_i = sum_t |T_t|,  gscale_ip = sum_t |dT_t/dtheta_p| + (|F| + sum_t |T_t|) * |dS/dtheta_p|."""
+      vscale_i = sum_t |T_t|,  gscale_ip = sum_t |dT_t/dtheta_p| + (|F| + sum_t |T_t|) * sum_pieces |dS_piece/dtheta_p|."""
     th0 = A64(theta0)
     T0, S0, Z0 = draw_terms(tgt, fam, th0, noise)
     F0 = T0.sum(-1)
@@ -364,8 +384,8 @@ def per_draw(tgt, fam, theta0, noise, h=2e-3, want_grad=True):
         dT2, dS2 = D(h / 2)
         dT = (4 * dT2 - dT1) / 3.0
         dS = (4 * dS2 - dS1) / 3.0
-        grad[:, p] = dT.sum(-1) + F0 * dS
-        gscale[:, p] = np.abs(dT).sum(-1) + (np.abs(F0) + vscale) * np.abs(dS)
+        grad[:, p] = dT.sum(-1) + F0 * dS.sum(-1)
+        gscale[:, p] = np.abs(dT).sum(-1) + (np.abs(F0) + vscale) * np.abs(dS).sum(-1)
     return F0, vscale, grad, gscale, Z0
 
 
